@@ -5,6 +5,7 @@ import (
 	"os"
 	"time"
 
+	"github.com/johannesboyne/gofakes3/internal/verifhook"
 	"github.com/spf13/afero"
 )
 
@@ -31,6 +32,7 @@ func modTimeResolution(fs afero.Fs) (dur time.Duration, rerr error) {
 	if err := tf.Close(); err != nil {
 		return 0, err
 	}
+	verifhook.At("fs.modres.probe")
 
 	modEqual := func(dur time.Duration) (equal bool, err error) {
 		if err := fs.Chtimes(name, modBaseTime, modBaseTime); err != nil {
